@@ -255,7 +255,9 @@ impl LspModule {
         let mut byte_col = 0u32;
         let mut utf16_col = 0u32;
         for c in self.ast.codemap().source_span(line_span).chars() {
-            if utf16_col >= col {
+            // A column beyond the end of the line means the end of the line,
+            // not the beginning of the next one.
+            if utf16_col >= col || c == '\n' || c == '\r' {
                 break;
             }
             utf16_col += c.len_utf16() as u32;
